@@ -131,7 +131,14 @@ pub fn join(ty: Ty, a: &Val, b: &Val) -> Val {
          _ => panic!("join ConstPropagation: {a:?} {b:?}"),
       },
       // tuples are ordered lexicographically by the shipped tuple lattice
-      Ty::PairU32 | Ty::PairI32 => if a >= b { a.clone() } else { b.clone() },
+      Ty::PairU32 | Ty::PairI32 | Ty::PairDualU32 => if a >= b { a.clone() } else { b.clone() },
+      Ty::DualSetU8 => match (a, b) {
+         (Val::Dual(x), Val::Dual(y)) => match (&**x, &**y) {
+            (Val::Set(x), Val::Set(y)) => Val::dual(Val::Set(x.intersection(y).cloned().collect())),
+            _ => panic!("join Dual<Set>: {a:?} {b:?}"),
+         },
+         _ => panic!("join Dual<Set>: {a:?} {b:?}"),
+      },
       Ty::ProdU32DualU32 => match (a, b) {
          (Val::Prod(a0, a1), Val::Prod(b0, b1)) =>
             Val::Prod(Box::new(Val::I(a0.int().max(b0.int()))), Box::new(Val::I(a1.int().min(b1.int())))),
